@@ -361,6 +361,9 @@ func (rs *runState) loop() {
 		// faults stop
 		if n.faultsOn && (n.requests >= rs.p.FaultStop || n.now() > 2*time.Hour) {
 			rs.stopFaults()
+			continue
+		}
+		if !n.faultsOn && budget == 0 {
 			ref := rs.w.Ref(rs.w.Header(rs.pivot).Root)
 			items := len(ref.Accounts) + len(ref.Codes)
 			for _, a := range ref.Accounts {
@@ -370,7 +373,6 @@ func (rs *runState) loop() {
 				items += 10 + 10*len(b.Txs)
 			}
 			budget = n.requests + 40*items + 4000
-			continue
 		}
 		// did the cycle end?
 		if rs.done != nil {
@@ -497,6 +499,12 @@ func (rs *runState) markerHook(op *simdisk.KVOp) {
 	}
 }
 
+func (rs *runState) initDisk() {
+	rs.kv = simdisk.NewSimKV(nil)
+	rs.kv.Hook = rs.markerHook
+	rs.db = rawdb.NewDatabase(rs.kv)
+}
+
 func runWorld(p *Plan, res *simcore.Result) *runState {
 	oldA, oldS := snap.VerifSetConcurrency(p.AccConc, p.StoConc)
 	defer snap.VerifSetConcurrency(oldA, oldS)
@@ -504,9 +512,7 @@ func runWorld(p *Plan, res *simcore.Result) *runState {
 	rs := &runState{p: p, res: res, tape: &simcore.TapeReader{T: p.Tape}, outcome: simcore.NewHash()}
 	rs.w = NewWorld(&p.State, p.Blocks, p.SchemeA, p.Pivot0)
 	defer rs.w.Stop()
-	rs.kv = simdisk.NewSimKV(nil)
-	rs.kv.Hook = rs.markerHook
-	rs.db = rawdb.NewDatabase(rs.kv)
+	rs.initDisk()
 	rs.net = NewNet(rs.w, res, p.Salt, p.Peers)
 	rs.pivot = p.Pivot0
 	rs.writeHeaders(0, rs.pivot)
